@@ -32,3 +32,12 @@ Theorem C10_created_indentation_obeys_the_setting : forall ty w n win eof,
     (CtxOptionsProof.ws_text (CtxOptions.create_plain_indent_trivia ty w n)) = true.
 Proof. exact CtxOptionsProof.indentation_obeys_discipline. Qed.
 Print Assumptions C10_created_indentation_obeys_the_setting.
+
+(* L0 - the whole-formatter model on a fragment of Lua 5.1 (Fmt0.v), tied to the binary byte for byte on every run:
+   the tokens it prints pass the newline and indentation discipline for every program and every configuration
+   (the end-of-file clause is validated by the tie only) *)
+From SV Require Fmt0 Fmt0Proof.
+Theorem C10_L0_output_obeys_the_discipline : forall c p eof, Fmt0Proof.wf_block p ->
+  Census.ws_scan (Fmt0Proof.wcfg c eof) true false (Fmt0.pprog c p) = None.
+Proof. exact Fmt0Proof.format0_whitespace_discipline. Qed.
+Print Assumptions C10_L0_output_obeys_the_discipline.
